@@ -27,7 +27,7 @@ SPEC_DIR = os.path.join(core.SPECS, 'node')
 ALL_DEFECTS = ['cleanup_name', 'sync_generation', 'created_done']
 CLAUSES = ['C13.oneLink', 'C13.sync', 'C13.handoff', 'C13.noRestart', 'C13.keep']
 PROPS = ['PropOneLink', 'PropSync', 'PropHandoff', 'PropNoRestart', 'PropKeep']
-ACTIONS = ['CacheCreate', 'CacheDelete', 'ReadyOn', 'ReadyOff', 'ContainerFinishes',
+ACTIONS = ['CacheCreate', 'CacheReplace', 'CacheDelete', 'ReadyOn', 'ReadyOff', 'ContainerFinishes',
            'MonitorCleanup', 'CleanupCompletes', 'ManagerRestart', 'NodeStart', 'Crash', 'OnCreated', 'OnModified',
            'OnDeleted', 'Synchronize']
 
@@ -160,6 +160,34 @@ def _mc_ext(ctx):
     return out
 
 
+def _witnesses(ctx):
+    """TLC-derived histories for a readiness flip during which a running
+    instance's cache entry is replaced in place: the shortest behaviours that
+    violate the witness predicates WitnessFlipA/B of AppCfg.tla (the flip not
+    handled at all / the deletion of .ready handled), continued by delivering
+    everything, with and without a second flip."""
+    from .. import appcfg_driver as drv
+
+    def one(w):
+        fname = 'MC_%s.cfg' % w
+        text = _cfg([], 2, 2, 7, props=[], typeok=False, invs=[w])
+        return tlc.mc(SPEC_DIR, 'AppCfg', fname, coverage=False, timeout=300, workers=4,
+                      extra_files={fname: text})
+    out = []
+    with concurrent.futures.ThreadPoolExecutor(2) as ex:
+        for w, res in zip(('WitnessFlipA', 'WitnessFlipB'), ex.map(one, ('WitnessFlipA', 'WitnessFlipB'))):
+            ctx.cmds.append(res['cmd'])
+            if res['violated'] != w:
+                raise tlc.MachineryError('witness %s not reached: the model cannot produce a readiness '
+                                         'flip with an in-place replacement' % w)
+            h = drv.from_labels([(a, tlc.tlaval.split_args(b)) for a, b in res['cex']])
+            tail = [['Deliver', []]] * 4
+            out.append(('tlc-flip', h + tail))
+            out.append(('tlc-flip', h + tail + [['ReadyOff', []], ['ReadyOn', []]] + tail))
+            out.append(('tlc-flip', h + [['CacheCreate', ['a2']]] + tail + [['CleanupStart', []]] + tail))
+    return out
+
+
 def _tlc_histories(ctx, n, depth):
     from .. import appcfg_driver as drv
     # (source, defects, cleanup service modelled, number, depth, seed)
@@ -229,7 +257,7 @@ def _fmt(h):
     return ['%s(%s)' % (e, ','.join(map(str, a))) for e, a in h]
 
 
-def judge(ctx, traces, verdicts):
+def judge(ctx, traces, verdicts, full_run=False):
     total = sum(len(t['lines']) - 1 for t in traces)
     if len(verdicts) != total:
         raise tlc.MachineryError('trace spec judged %d of %d lines' % (len(verdicts), total))
@@ -275,6 +303,10 @@ def judge(ctx, traces, verdicts):
                     replay_payload=dict(kind='appcfg', property='C13', clause=f,
                                         history=t['history'][:v['i']], late=t.get('late', False),
                                         failed_step=v['i'])))
+    if full_run and (len(nontrivial) * 10 < len(traces) or ctx.skipped * 10 > len(verdicts)):
+        # e.g. the handlers raise on every call because of the way the harness set them up
+        raise tlc.MachineryError('vacuity: %d of %d histories non-trivial, %d of %d steps ended in an '
+                                 'exception' % (len(nontrivial), len(traces), ctx.skipped, len(verdicts)))
     # report the shortest failing history of each clause
     violations.sort(key=lambda x: (x['clause'], len(x['replay_payload']['history'])))
     samples = []
@@ -330,13 +362,18 @@ def _with_java_tmp(fn):
 
 @_with_java_tmp
 def run(ctx):
+    # import the driver (and with it treadmill) in the MAIN thread: treadmill.logcontext
+    # sets up thread-local state at import time, for the importing thread only
+    from .. import appcfg_driver  # noqa: F401  pylint: disable=unused-import
     with concurrent.futures.ThreadPoolExecutor(2) as ex:
         f_ext = ex.submit(_mc_ext, ctx)          # extension MC alongside the C13 MC
+        f_wit = ex.submit(_witnesses, ctx)
         cex = list(_mc(ctx))
         ctx.ext_mc = f_ext.result()
+        witnesses = f_wit.result()
     n_tlc, depth = (100, 26) if ctx.quick else (3000, 30)
     n_rnd = 300 if ctx.quick else 12000
-    hist = cex + _tlc_histories(ctx, n_tlc, depth)
+    hist = cex + witnesses + _tlc_histories(ctx, n_tlc, depth)
     jobs = [(src, h, 0, 0, (), 0, False) for src, h in hist]
     rng = random.Random(ctx.seed * 7919 + 13)
     for k in range(n_rnd):
@@ -365,7 +402,7 @@ def run(ctx):
     ctx.log('recorded %d traces, %d lines' % (len(traces), sum(len(t['lines']) for t in traces)))
     verdicts, stats = _validate(traces, timeout=300 if ctx.quick else 3000)
     ctx.cmds.append(stats['cmd'])
-    return judge(ctx, traces, verdicts)
+    return judge(ctx, traces, verdicts, full_run=True)
 
 
 @_with_java_tmp
